@@ -32,6 +32,8 @@ def classify(sig, fam):
         return "KF-C01-hi16"
     if fam == "F1a":
         return "KF-C01-reg-sub16"
+    if fam == "F7d" and re.match(r"A16\[R\] = (\(\*P\)|P\[|A8\[u8\])", sig):
+        return "KF-C01-deref-y"
     if fam in ("F1c", "F2b", "F7d"):
         return "KF-C01-test16-lowbyte"
     if fam == "F1e":
